@@ -352,6 +352,45 @@ def run(tier, seed, replay):
     dd = common.run_jsonl(inproc, [{"cmd": "fmt_parse", "lit": without_empty_dots(l)} for l in dotted])
     undotted = dict(zip(dotted, dd))
 
+    # third pass: std-ACCEPTED literals that are exactly one placeholder, offered to the real transparent_call under
+    # the three argument shapes; the verdict must follow from std's reading (no modifiers; the placeholder refers to the
+    # only argument by position 0 / implicitly / by its alias, or - without arguments - to a binding by name)
+    bare = []
+    for l in lits:
+        a, b = real[l]
+        if "panic" in a or "crash" in a:
+            continue
+        s_ = std_real(b)
+        if isinstance(s_, list) and len(s_) == 1 and a.get("single") is not None and a["single"]["rest_len"] == 0:
+            bare.append(l)
+    if len(bare) > (6000 if tier == "quick" else 60000):
+        bare = rng.sample(bare, 6000 if tier == "quick" else 60000)
+    breqs = []
+    for l in bare:
+        breqs.append({"cmd": "fmt_attr", "tokens": rust_lit(l)})
+        breqs.append({"cmd": "fmt_attr", "tokens": rust_lit(l) + ", field"})
+        breqs.append({"cmd": "fmt_attr", "tokens": rust_lit(l) + ", zq = field"})
+    bres = common.run_jsonl(inproc, breqs)
+    chk.bump("bare_placeholders_offered_to_transparent_call", len(bare))
+    for k, l in enumerate(bare):
+        (param, star, sp) = std_real(real[l][1])[0]
+        mods = has_mods(sp)
+        want_trait = TRAIT_OF[sp["ty"]]
+        positional0 = param[0] == "pos" and param[1] == 0
+        expect = [(not mods) and param[0] == "name",
+                  (not mods) and positional0,
+                  (not mods) and (positional0 or param == ("name", "zq"))]
+        for j, shape in enumerate(["no argument", "one positional argument", "one aliased argument `zq = ..`"]):
+            r = bres[3 * k + j]
+            if "err" in r or "panic" in r or "crash" in r:
+                continue
+            got = r.get("transparent")
+            if bool(got) != expect[j] or (got and got["trait"] != want_trait):
+                chk.violation("transparent-reading", {"literal": l, "arguments": shape, "std": [param, sp],
+                                                      "transparent_call": got, "expected_delegation": expect[j]},
+                              "for %r with %s std's reading (%s, modifiers=%s, trait %s) %s a delegation, transparent_call says %s" % (
+                                  l, shape, param, mods, want_trait, "allows" if expect[j] else "forbids", got))
+
     # ---- oracle: real derive_more vs real rustc (independent of the models)
     n_acc = 0
     for l in lits:
